@@ -64,6 +64,104 @@ def _depends_on(res, e, params, depth=0, seen=None):
     return False
 
 
+def rhs_multiplicity(ctx, rule="C17.R9"):
+    """Moreau's step solves ONE linear system  A x = b + (W_N P_N + W_F P_F; 0; 0)  whose lower rows chi_g, chi_gamma make the velocity-level
+    bilateral constraints hold at the midpoint.  However the solution is put together (re-solve with an updated right-hand side, or
+    superposition x0 + A^-1 (contact part)), the stored x must contain b's upper block exactly once and b's constraint rows exactly once: a
+    superposition onto a right-hand side that still carries chi_g counts the inhomogeneous constraint part twice (W_g^T u + 2 chi_g = 0).
+    Abstract interpretation with the domain (multiplicity of b's top block, multiplicity of b's constraint rows); linear solves keep it."""
+    rep = ctx.rep
+    fn = ctx.repo.get(MO, "Moreau.step")
+    C = f"{MO}:Moreau.step"
+    solves = [w for w in ast.walk(fn) if isinstance(w, ast.Call) and isinstance(w.func, ast.Attribute) and w.func.attr == "solve" and w.args and isinstance(w.args[0], ast.Name)]
+    if not solves:
+        raise AnalysisError(f"{C}: no linear solve found")
+    base = min(solves, key=lambda w: w.lineno).args[0].id
+    env = {}
+    TOPV = None
+
+    def add(A, B, sign=1):
+        if A is TOPV or B is TOPV:
+            return TOPV
+        return {(a[0] + sign * b[0], a[1] + sign * b[1]) for a in A for b in B}
+
+    def ev(e):
+        if isinstance(e, ast.Name):
+            return env.get(e.id, {(0, 0)})
+        if isinstance(e, ast.Call):
+            f = e.func
+            if isinstance(f, ast.Attribute) and f.attr == "copy" and not e.args:
+                return ev(f.value)
+            if isinstance(f, ast.Attribute) and f.attr == "solve" and e.args:
+                return ev(e.args[0])
+            last = (dotted(f) or "").split(".")[-1]
+            if last in ("zeros", "zeros_like", "empty_like", "ones_like"):
+                return {(0, 0)}
+            if last in ("copy", "array", "asarray") and e.args:
+                return ev(e.args[0])
+            if any(isinstance(w, ast.Name) and env.get(w.id, {(0, 0)}) != {(0, 0)} for w in ast.walk(e)):
+                return TOPV
+            return {(0, 0)}
+        if isinstance(e, ast.BinOp) and isinstance(e.op, (ast.Add, ast.Sub)):
+            return add(ev(e.left), ev(e.right), 1 if isinstance(e.op, ast.Add) else -1)
+        if isinstance(e, ast.UnaryOp) and isinstance(e.op, ast.USub):
+            return add({(0, 0)}, ev(e.operand), -1)
+        if isinstance(e, ast.Subscript):
+            return ev(e.value)
+        if any(isinstance(w, ast.Name) and env.get(w.id, {(0, 0)}) != {(0, 0)} for w in ast.walk(e)):
+            return TOPV
+        return {(0, 0)}
+
+    def top_slice(t):
+        return isinstance(t, ast.Subscript) and isinstance(t.slice, ast.Slice) and t.slice.lower is None and isinstance(t.value, ast.Name)
+    final = []
+
+    def block(stmts):
+        for st in stmts:
+            if isinstance(st, ast.Assign) and len(st.targets) == 1:
+                t = st.targets[0]
+                if isinstance(t, ast.Name):
+                    if t.id == base and base not in env:
+                        env[base] = {(1, 1)}
+                    else:
+                        env[t.id] = ev(st.value)
+                elif top_slice(t):
+                    cur, new = env.get(t.value.id, {(0, 0)}), ev(st.value)
+                    env[t.value.id] = TOPV if (cur is TOPV or new is TOPV) else {(n_[0], c_[1]) for c_ in cur for n_ in new}
+                elif isinstance(t, ast.Tuple) and isinstance(st.value, ast.Call) and (dotted(st.value.func) or "").endswith("array_split") and st.value.args \
+                        and isinstance(st.value.args[0], ast.Name) and env.get(st.value.args[0].id, {(0, 0)}) != {(0, 0)}:
+                    final.append((st, env.get(st.value.args[0].id)))
+            elif isinstance(st, ast.AugAssign) and top_slice(st.target) and isinstance(st.op, (ast.Add, ast.Sub)):
+                cur, new = env.get(st.target.value.id, {(0, 0)}), ev(st.value)
+                env[st.target.value.id] = TOPV if (cur is TOPV or new is TOPV) else {(c_[0] + (1 if isinstance(st.op, ast.Add) else -1) * n_[0], c_[1]) for c_ in cur for n_ in new}
+            elif isinstance(st, ast.If):
+                before = dict(env)
+                block(st.body)
+                after_body = dict(env)
+                env.clear()
+                env.update(before)
+                block(st.orelse)
+                for k in set(after_body) | set(env):
+                    a, b_ = after_body.get(k, before.get(k, {(0, 0)})), env.get(k, before.get(k, {(0, 0)}))
+                    env[k] = TOPV if (a is TOPV or b_ is TOPV) else (a | b_)
+            elif isinstance(st, (ast.For, ast.While)):
+                block(st.body)
+            elif isinstance(st, (ast.With, ast.Try)):
+                block(st.body)
+    block(fn.body)
+    if not final:
+        raise AnalysisError(f"{C}: the split of the solution vector (un1, P_gn1, P_gamman1) was not found")
+    for st, m in final:
+        if m is TOPV:
+            rep.ok(rule, C, f"`{norm_src(st)[:60]}`: composition of the solution not determinable (no verdict)", verdict="unknown", trivial=True)
+        elif m == {(1, 1)}:
+            rep.ok(rule, C, f"the solution that is split into (un1, P_g, P_gamma) contains the right-hand side `{base}` exactly once (momentum block and constraint rows) on every path")
+        else:
+            rep.bad(rule, C, st, f"the solution split into (un1, P_g, P_gamma) contains the right-hand side `{base}` with multiplicities (momentum block, constraint rows) = {sorted(m)} "
+                    "instead of (1, 1): a superposition onto a right-hand side that still carries chi_g / chi_gamma counts the inhomogeneous part of the bilateral constraints twice, so "
+                    "g_dot(t_mid, q_mid, u_n+1) = -chi_g instead of 0 whenever a rheonomic constraint and a closed contact meet", f"{MO}:{st.lineno}")
+
+
 def callback_threading(ctx, rule="C17.R8"):
     """System.step_callback hands each contribution ITS slice of the state and writes the result back.  Contributions overlap: a
     contact between two rigid bodies (Sphere2Sphere) owns a callback and its qDOF covers both bodies' coordinates, which it returns
@@ -121,6 +219,8 @@ def callback_threading(ctx, rule="C17.R8"):
 
 def run(ctx):
     rep = ctx.rep
+    rep.rule("C17.R9", "Moreau: the stored solution of the step's linear system contains its right-hand side (incl. the constraint rows chi_g, chi_gamma) exactly once", 1)
+    rhs_multiplicity(ctx)
     rep.rule("C17.R8", "System.step_callback threads ONE state through all callbacks (overlapping contributions keep the normalisation)", 5)
     callback_threading(ctx)
     rep.rule("C17.R1", "constraints enforced at the end point on the unknown", 8)
@@ -410,4 +510,14 @@ NEUTRAL += [
     dict(id="c17-n-r8", canary=True, what="System.step_callback works on copies throughout and returns them", file=SYSF,
          old="    def step_callback(self, t, q, u):\n        for contr in self.__step_callback_contr:\n            q[contr.qDOF], u[contr.uDOF] = contr.step_callback(\n                t, q[contr.qDOF], u[contr.uDOF]\n            )\n        return q, u\n",
          new="    def step_callback(self, t, q, u):\n        qc, uc = q.copy(), u.copy()\n        for contr in self.__step_callback_contr:\n            qc[contr.qDOF], uc[contr.uDOF] = contr.step_callback(\n                t, qc[contr.qDOF], uc[contr.uDOF]\n            )\n        return qc, uc\n"),
+]
+MUTANTS += [
+    dict(id="c17-r9-seed", canary=True, what="[seeded by sub-agent] Moreau: contact response superposed onto a right-hand side that still carries the constraint rows", file=MO,
+         edits=[(MO, "                bb = b.copy()\n                bb[: self.nu] += self.W_N @ P_N + self.W_F @ P_F\n", "                bb = b.copy()\n                bb[: self.nu] = self.W_N @ P_N + self.W_F @ P_F\n"),
+                (MO, "                x = lu_A.solve(bb)\n", "                x = x0 + lu_A.solve(bb)\n")], expect="C17.R9"),
+]
+NEUTRAL += [
+    dict(id="c17-n-r9", canary=True, what="Moreau: correct superposition (contact response on a zero right-hand side)", file=MO,
+         edits=[(MO, "                bb = b.copy()\n                bb[: self.nu] += self.W_N @ P_N + self.W_F @ P_F\n", "                bb = np.zeros_like(b)\n                bb[: self.nu] = self.W_N @ P_N + self.W_F @ P_F\n"),
+                (MO, "                x = lu_A.solve(bb)\n", "                x = x0 + lu_A.solve(bb)\n")]),
 ]
